@@ -400,7 +400,7 @@ class Main {
 class Opt(None, Some(int)) {
   function show(o: Opt): unit = match o {
     None -> Process.println("none"),
-    Some(v) -> Process.println("some ".concat(Str.fromInt(v))),
+    Some(v) -> Process.println("some " :: Str.fromInt(v)),
   }
   function inc(o: Opt): Opt = match o { None -> Opt.None(), Some(v) -> Opt.Some(v + 1) }
 }
@@ -463,8 +463,8 @@ class Main {
     let add = (x: int) -> x + k;
     let _ = Process.println(Str.fromInt(Main.apply(add, 35)));
     let _ = Process.println(Box.get(Box.Wrap("hi")));
-    let a = "ab";
-    let b = "a".concat("b");
+    let b = Str.fromInt("1".toInt()) :: "b";
+    let a = "1b";
     let _ = if a == b { Process.println("content-eq") } else { Process.println("identity-ne") };
     let _ = if a != "ac" { Process.println("ne-ok") } else { Process.println("ne-bad") };
     let _ = Process.println(Str.fromInt("12x".toInt()));
